@@ -55,7 +55,18 @@ class Checker:
         self.s.add(z3.simplify(a - b) != 0)
         if timeout_ms is not None:
             self.s.set('timeout', timeout_ms)
-        r = str(self.s.check())
+        # z3's nonlinear engine does not always honour its own timeout: interrupt from a timer thread
+        import threading
+        tmo = (timeout_ms or self.timeout_ms) / 1000.0 + 1.0
+        timer = threading.Timer(tmo, self.s.ctx.interrupt)
+        timer.daemon = True
+        timer.start()
+        try:
+            r = str(self.s.check())
+        except self.z3.Z3Exception:
+            r = 'unknown'
+        finally:
+            timer.cancel()
         if timeout_ms is not None:
             self.s.set('timeout', self.timeout_ms)
         m = None
@@ -147,10 +158,14 @@ class Checker:
         return False
 
     # -- atom multisets --------------------------------------------------------------------
-    def match(self, ref, impl, what='atoms'):
+    def match(self, ref, impl, what='atoms', modconst=None, far=True):
         """ref, impl: dict domain -> list of (kind, term, label) (same order in every domain).
         Greedy pairing of fingerprint candidates confirmed by the solver.
+        modconst(label)->bool: atoms that may be matched up to a constant factor (positive for
+        inequalities, nonzero for equalities): same feasible set; the factor found is recorded.
         returns (pairs, unmatched_ref_indices, unmatched_impl_indices)"""
+        from fractions import Fraction
+        self.factors = getattr(self, 'factors', {})
         pts = [d for d in ref if d != 'z']
         nr = len(ref['z'])
         ni = len(impl['z'])
@@ -164,6 +179,18 @@ class Checker:
             for i in range(ni):
                 if used[i] or impl['z'][i][0] != kind:
                     continue
+                if modconst is not None and modconst(ref['z'][j][2]):
+                    # factor from the first point, must be the same simple rational at every point
+                    r0, i0 = ref[pts[0]][j][1], impl[pts[0]][i][1]
+                    if r0 is None or abs(r0) < 1e-12 or abs(i0) < 1e-12:
+                        continue
+                    c = Fraction(i0 / r0).limit_denominator(10 ** 4)
+                    if c == 0 or abs(float(c) - i0 / r0) > 1e-9 * abs(i0 / r0) or (kind == 'le' and c < 0):
+                        continue
+                    dist = fpdist([impl[d][i][1] for d in pts], [float(c) * ref[d][j][1] for d in pts])
+                    if dist <= 1e-3:
+                        cands.append((dist, i, c))
+                    continue
                 for sgn in ((1, -1) if kind == 'eq' else (1,)):
                     dist = fpdist([impl[d][i][1] for d in pts], [sgn * ref[d][j][1] for d in pts])
                     if dist <= 1e-3:
@@ -172,19 +199,22 @@ class Checker:
             # exact-fingerprint candidates first; then (ill-conditioned float evaluation) up to 3 near misses
             tried_far = 0
             for dist, i, sgn in cands:
-                far = dist > 1e-9
-                if far:
-                    if tried_far >= 2:
+                isfar = dist > 1e-9
+                if isfar:
+                    if not far or tried_far >= 2:
                         break
                     tried_far += 1
-                r, m = self.neq(impl['z'][i][1], sgn * emb(ref['z'][j][1]), timeout_ms=2000 if far else None)
+                sz = sgn if isinstance(sgn, int) else self.z3.RealVal(str(sgn))
+                r, m = self.neq(impl['z'][i][1], sz * emb(ref['z'][j][1]), timeout_ms=2000 if isfar else None)
                 if r == 'unsat':
                     found = i
+                    if not isinstance(sgn, int):
+                        self.factors[ref['z'][j][2]] = str(sgn)
                     if dist > 1e-9:
                         self.stats['fp_noise'] = self.stats.get('fp_noise', 0) + 1
                     break
                 if r != 'sat':
-                    if not far:
+                    if not isfar:
                         self.inconclusive.append({'label': ref['z'][j][2], 'why': 'solver ' + r})
                 else:
                     self._last_model = (ref['z'][j][2], impl['z'][i][2], self.model_point(m) if m else None)
